@@ -9,7 +9,7 @@ open Genshi Genshi.Match Genshi.Sexp
   C12 run <fuel> ( item … )
      item := ( S name ) | ( E name ) | ( T text )
            | ( REG spec ( bitem … ) buffer once recursive )     the three attribute values, N = absent
-     spec := ( one name|N pos|N ) | ( chain ( ( name … ) … ) )
+     spec := ( one name|N pos|N ) | ( chain ( ( name … ) … ) ) | ( generic ( ( child|desc|dos ( name n )|any|node ) … ) )
      bitem := ( S name ) | ( E name ) | ( T text ) | ( SEL dot|node|elems|text|nodeText ) | ( SEL named name )
   C12 lazy <fuel> ( item … )     the same through the automaton model (covers buffer="false")
   answer: ( ok ( event … ) ( hits per registered template … ) ) | unmodelled | ( err fuel )
@@ -52,6 +52,22 @@ def optName? : Sexp → Option (Option Str)
 def spec? : Sexp → Option PathSpec
   | .list [.atom "one", n, p] => do
       let n ← optName? n; let p ← optNat? p; pure (.single n p)
+  | .list [.atom "generic", .list sts] => do
+      let sts ← sts.mapM fun
+        | .list [ax, t] => do
+            let ax ← match ax with
+              | .atom "child" => some GAxis.child
+              | .atom "desc" => some GAxis.desc
+              | .atom "dos" => some GAxis.dos
+              | _ => none
+            let t ← match t with
+              | .list [.atom "name", .str n] => some (GTest.name n)
+              | .atom "any" => some GTest.any
+              | .atom "node" => some GTest.node
+              | _ => none
+            pure (ax, t)
+        | _ => none
+      pure (.generic sts)
   | .list [.atom "chain", .list fs] => do
       let fs ← fs.mapM fun
         | .list ns => ns.mapM Sexp.toStr?
